@@ -13,8 +13,8 @@ Definition tr_stop_in_callback : list label :=
 (* ... both stops run on the dispatcher thread (re-entrant lock, join of the emitter), the dispatcher exits *)
 Definition tr_shutdown : list label :=
   tr_stop_in_callback ++
-  [LStep TD; LStep TD; LStep TD; LOrd TD [0%nat]; LStep TD; LECheck 0%nat; LEExit 0%nat; LStep TD; LStep TD; LStep TD; LStep TD;
-   LStep TD; LStep TD; LStep TD; LOrd TD []; LStep TD; LStep TD; LStep TD; LStep TD; LStep TD; LStep TD].
+  [LStep TD; LStep TD; LStep TD; LOrd TD [0%nat]; LStep TD; LECheck 0%nat; LEExit 0%nat; LStep TD; LStep TD; LStep TD; LStep TD; LStep TD;
+   LStep TD; LStep TD; LStep TD; LOrd TD []; LStep TD; LStep TD; LStep TD; LStep TD; LStep TD; LStep TD; LStep TD].
 (* remove_handler_for_watch(h1, w2) from an API thread after the first delivery; event 8 is then dispatched to nobody *)
 Definition tr_remove : list label :=
   tr_deliver ++ [LCall 0%N (CRemove 1%N 2%N); LStep A0; LStep A0; LStep A0;
@@ -44,3 +44,11 @@ Proof.
   exists s. split; [exists tr_pinned_deadlock; exact E|].
   vm_compute in E. inversion E; subst. vm_compute. repeat split; auto 20.
 Qed.
+
+(* The emitter's unlocked read of _last_item and its enqueue are separate steps: after the emitter passed its
+   flag check (LECheck) the dispatcher may get the identical previous event (which resets _last_item); the
+   emitter then cannot skip any more (LESkip disabled) and the identical event is queued again (LEPut). *)
+Definition tr_get_between_read_and_put : list label :=
+  [LCall 0%N (CSchedule 1%N 2%N); LStep A0; LStep A0; LStep A0;
+   LCall 0%N CStart; LStep A0; LOrd A0 [0%nat]; LStep A0; LStep A0; LStep A0; LStep A0; LStep A0; LStep A0;
+   LECheck 0%nat; LEPut 0%nat 7%N; LECheck 0%nat; LStep TD; LStep TD].
